@@ -312,6 +312,34 @@ def stepDump (ws : List String) (obs : String) : String :=
             else s!"PROPFAIL column header does not name the columns{div}"
           else if div.isEmpty then "OK" else "DIVERGE" ++ (div.drop 9).toString
 
+/-! ### a session on one opened file: `fsess size= fseed= real= uses=… dumps=<k=..,lb=..,…>;<…>`
+     observation = the dumps' texts separated by U+001D; every dump is judged like a `dump` case
+     against the bytes of the FILE (ground truth of the harness, not read back through fq) -/
+
+def usep : Char := Char.ofNat 0x1d
+
+def stepFileSession (ws : List String) (obs : String) : String :=
+  match kv ws "dumps" with
+  | none => "BADOP fsess args"
+  | some ds =>
+    let specs := ds.splitOn ";"
+    let texts := splitOnChar usep obs.toList
+    if specs.length ≠ texts.length then "BADOP fsess: dumps and observations differ in number" else
+    let verdicts := (specs.zip texts).zipIdx.map fun ((spec, t), i) =>
+      let v := if String.ofList (t.take 4) == "err:" then s!"PROPFAIL the dump failed: {String.ofList t}"
+               else stepDump (spec.splitOn ",") (String.ofList t)
+      (i, v)
+    match verdicts.find? (fun (_, v) => v.startsWith "PROPFAIL" || v.startsWith "BADOP") with
+    | some (i, v) =>
+      if v.startsWith "BADOP" then v else s!"PROPFAIL dump #{i} of the session: {(v.drop 9).toString}"
+    | none =>
+      match verdicts.find? (fun (_, v) => v.startsWith "DIVERGE") with
+      | some (i, v) => s!"DIVERGE dump #{i}: {(v.drop 8).toString}"
+      | none =>
+        match verdicts.find? (fun (_, v) => v.startsWith "KNOWN") with
+        | some (_, v) => v
+        | none => "OK"
+
 /-! ### whole-tree dump over one root buffer: every cell with an address is true -/
 
 def stepTree (ws : List String) (obs : String) : String :=
@@ -703,6 +731,7 @@ def stepC10 (op obs : String) : String :=
   | "dump" :: ws => stepDump ws obs
   | "tree" :: ws => stepTree ws obs
   | "ntree" :: ws => stepNTree ws obs
+  | "fsess" :: ws => stepFileSession ws obs
   | "json" :: mode :: _ => stepJson mode (dropWord (dropWord op.toList)) obs
   | "jsonv" :: mode :: _ :: _ :: _ :: _ =>
     stepJson mode (dropWord (dropWord (dropWord (dropWord (dropWord op.toList))))) obs
